@@ -503,6 +503,86 @@ Definition get_cookie (hdr : str) (key : str) (secret : option str) : gres * opt
     end
   end.
 
+(* ---- two response objects: set_cookie / delete_cookie / BaseResponse.copy ----
+   A morsel here also remembers whether delete_cookie put its attributes on it
+   (expires = http_date(0), max-age = -1); SimpleCookie.__setitem__ keeps the
+   attributes of an existing morsel, so the flag survives a later set_cookie.
+   response.py:94 copy: the copy's jar is SimpleCookie().load(self._cookies.output(header='')),
+   i.e. the morsels re-parsed from their own output in sorted key order — new
+   objects carrying the same key, value, coded value and attribute text.  (Names
+   starting with '$' are not modelled here: they are lost or raise in load, finding F18c.) *)
+Definition mjar := list (str * (str * str * bool)).
+
+Fixpoint mjar_put (name s coded : str) (del : bool) (j : mjar) : mjar :=
+  match j with
+  | [] => [(name, (s, coded, del))]
+  | (k, (s0, c0, d0)) :: r =>
+    if str_eqb name k then (k, (s, coded, d0 || del)) :: r
+    else (k, (s0, c0, d0)) :: mjar_put name s coded del r
+  end.
+
+Definition mjar_set (j : mjar) (name : str) (v : cval) (secret : option str) (del : bool) : mjar + serr :=
+  match set_cookie [] name v secret with
+  | inl ((_, (s, coded)) :: _) => inl (mjar_put name s coded del j)
+  | inl [] => inl j
+  | inr e => inr e
+  end.
+
+(* response.py:241 delete_cookie(key): set_cookie(key, '', max_age=-1, expires=0) *)
+Definition mjar_delete (j : mjar) (name : str) : mjar + serr := mjar_set j name (CStr []) None true.
+
+Fixpoint str_ltb (a b : str) : bool :=
+  match a, b with
+  | _, [] => false
+  | [], _ :: _ => true
+  | x :: a', y :: b' => if x <? y then true else if y <? x then false else str_ltb a' b'
+  end.
+
+Fixpoint mjar_insert (e : str * (str * str * bool)) (j : mjar) : mjar :=
+  match j with
+  | [] => [e]
+  | e' :: r => if str_ltb (fst e') (fst e) then e' :: mjar_insert e r else e :: j
+  end.
+
+(* sorted(self.items()) in BaseCookie.output *)
+Definition mjar_copy (j : mjar) : mjar := fold_right mjar_insert [] j.
+
+Definition expired_attrs : str :=
+  L "; expires=Thu, 01 Jan 1970 00:00:00 GMT; Max-Age=-1".
+
+Fixpoint emit_mjar (j : mjar) : option (list str) :=
+  match j with
+  | [] => Some []
+  | (name, (_, coded, del)) :: r =>
+    match transcode (output_string name coded ++ (if del then expired_attrs else [])), emit_mjar r with
+    | Some h, Some t => Some (h :: t)
+    | _, _ => None
+    end
+  end.
+
+(* the original response and, once copy() was called, the copy *)
+Inductive rop :=
+| RSet (on_copy : bool) (name : str) (v : cval) (secret : option str)
+| RDel (on_copy : bool) (name : str)
+| RCopy.
+
+Definition rpair := (mjar * option mjar)%type.
+
+Definition rstep (st : rpair) (o : rop) : rpair * option serr * bool :=   (* state, exception, skipped *)
+  let '(r, c) := st in
+  let upd (on_copy : bool) (f : mjar -> mjar + serr) : rpair * option serr * bool :=
+    if on_copy then
+      match c with
+      | None => (st, None, true)
+      | Some cj => match f cj with inl cj' => ((r, Some cj'), None, false) | inr e => (st, Some e, false) end
+      end
+    else match f r with inl r' => ((r', c), None, false) | inr e => (st, Some e, false) end in
+  match o with
+  | RSet oc name v secret => upd oc (fun j => mjar_set j name v secret false)
+  | RDel oc name => upd oc (fun j => mjar_delete j name)
+  | RCopy => ((r, Some (mjar_copy r)), None, false)
+  end.
+
 (* several get_cookie calls on ONE request object: the request keeps no state
    between reads (get_cookie reads self.cookies, which is cached but never changed,
    and caches nothing itself), so the reads are made one after the other on the
@@ -521,6 +601,7 @@ Arguments LRaise {val}. Arguments LFalsy {val}. Arguments LPair {val}.
 Arguments DNone {val}. Arguments DLoaded {val}. Arguments DB64Error {val}. Arguments DEncodeError {val}.
 Arguments GDefault {val}. Arguments GStr {val}. Arguments GVal {val}.
 Arguments GCookieError {val}. Arguments GRaise {val}. Arguments GNoFuel {val}.
+Arguments RSet {val}. Arguments RDel {val}. Arguments RCopy {val}.
 
 (* ------------------------------------------------------------------ *)
 (* correspondence interface                                            *)
@@ -691,6 +772,56 @@ Definition scenario (l : list Z) : list Z :=
   | _ => bad_input
   end.
 
+(* ---- mode 5: operations on a response and its copy, then both are emitted and read back ---- *)
+Definition dec_rop (l : list Z) : option (@rop pk * list Z) :=
+  match l with
+  | 0%Z :: oc :: r => match dec_cspec r with
+                      | Some (c, r') => Some (RSet (negb (Z.eqb oc 0)) (c_name c) (c_cval c) (c_secret c), r')
+                      | None => None
+                      end
+  | 1%Z :: oc :: r => match dec_str r with
+                      | Some (n, r') => Some (RDel (negb (Z.eqb oc 0)) n, r')
+                      | None => None
+                      end
+  | 2%Z :: r => Some (RCopy, r)
+  | _ => None
+  end.
+
+Fixpoint rrun (st : @rpair) (ops : list (@rop pk)) : @rpair * list Z :=
+  match ops with
+  | [] => (st, [])
+  | o :: r =>
+    let '(st', e, skipped) := rstep pk hmac_md5 cdumps st o in
+    let code := if skipped then 7%Z else match e with None => 0%Z | Some x => serr_code x end in
+    let '(st'', codes) := rrun st' r in (st'', code :: codes)
+  end.
+
+Definition rop_table (ops : list (@rop pk)) : list (list N * str) :=
+  flat_map (fun o => match o with RSet _ n (CObj p) _ => [(p, n)] | _ => [] end) ops.
+
+(* what a client keeps of a Set-Cookie value: the pair before the first ';' *)
+Definition strip_attrs (w : str) : str := fst (split_once N.eqb 59 w).
+
+Definition enc_resp (tbl : list (list N * str)) (reads : list (str * option str)) (j : mjar) : list Z :=
+  match emit_mjar j with
+  | None => [2%Z]
+  | Some wires =>
+    let hdr := join [59; 32] (List.map strip_attrs wires) in
+    0%Z :: enc_list enc_str wires ++ enc_pres (parse_cookies hdr)
+        ++ enc_list (fun x => enc_gres (fst x) ++ enc_option enc_str (snd x)) (read_seq hdr tbl reads)
+  end.
+
+Definition resp_scenario (l : list Z) : list Z :=
+  match dec_list dec_rop l with
+  | Some (ops, r1) =>
+    let reads := match dec_list dec_read r1 with Some (x, _) => x | None => [] end in
+    let '((r, c), codes) := rrun ([], None) ops in
+    let tbl := rop_table ops in
+    enc_list (fun z => [z]) codes ++ enc_resp tbl reads r
+      ++ match c with None => [0%Z] | Some cj => 1%Z :: enc_resp tbl reads cj end
+  | None => bad_input
+  end.
+
 Definition corr_C15 (inp : list Z) : list Z :=
   match inp with
   | 0%Z :: r => scenario r
@@ -713,5 +844,6 @@ Definition corr_C15 (inp : list Z) : list Z :=
                                   end
                 | None => bad_input
                 end
+  | 5%Z :: r => resp_scenario r
   | _ => bad_input
   end.
